@@ -83,7 +83,9 @@ var sigTable = []string{
 const frequentSigs = 4
 
 // focusSlots is the rotation of the frequent classes: the rarer of them get more turns.
-var focusSlots = []int{0, 1, 3, 2, 3, 1, 4, 3, 2}
+// In the turns of slot frequentSigs none of them is on, and each of the other classes is on
+// with probability 1/2; in the other turns the other classes are off.
+var focusSlots = []int{0, 1, 3, 2, 4, 3, 1, 4, 3, 2, 4}
 
 var exoticCaseNo int
 
@@ -415,7 +417,7 @@ func TestExotic(t *testing.T) {
 			if i < frequentSigs {
 				mask[s] = i == focus
 			} else {
-				mask[s] = maskBits>>(20+uint(i))&1 == 1
+				mask[s] = focus == frequentSigs && maskBits>>(20+uint(i))&1 == 1
 			}
 		}
 		seenMu.Lock()
